@@ -492,7 +492,7 @@ func (tp TimeInterval) ContainsTime(t time.Time) bool {
 	if tp.Location != nil {
 		t = t.In(tp.Location.Location)
 	}
-	if tp.Times != nil {
+	if len(tp.Times) > 0 {
 		in := false
 		for _, validMinutes := range tp.Times {
 			if (t.Hour()*60+t.Minute()) >= validMinutes.StartMinute && (t.Hour()*60+t.Minute()) < validMinutes.EndMinute {
@@ -504,7 +504,7 @@ func (tp TimeInterval) ContainsTime(t time.Time) bool {
 			return false
 		}
 	}
-	if tp.DaysOfMonth != nil {
+	if len(tp.DaysOfMonth) > 0 {
 		in := false
 		for _, validDates := range tp.DaysOfMonth {
 			var begin, end int
@@ -535,7 +535,7 @@ func (tp TimeInterval) ContainsTime(t time.Time) bool {
 			return false
 		}
 	}
-	if tp.Months != nil {
+	if len(tp.Months) > 0 {
 		in := false
 		for _, validMonths := range tp.Months {
 			if t.Month() >= time.Month(validMonths.Begin) && t.Month() <= time.Month(validMonths.End) {
@@ -547,7 +547,7 @@ func (tp TimeInterval) ContainsTime(t time.Time) bool {
 			return false
 		}
 	}
-	if tp.Weekdays != nil {
+	if len(tp.Weekdays) > 0 {
 		in := false
 		for _, validDays := range tp.Weekdays {
 			if t.Weekday() >= time.Weekday(validDays.Begin) && t.Weekday() <= time.Weekday(validDays.End) {
@@ -559,7 +559,7 @@ func (tp TimeInterval) ContainsTime(t time.Time) bool {
 			return false
 		}
 	}
-	if tp.Years != nil {
+	if len(tp.Years) > 0 {
 		in := false
 		for _, validYears := range tp.Years {
 			if t.Year() >= validYears.Begin && t.Year() <= validYears.End {
